@@ -92,7 +92,7 @@ def gen(rng, scenario, tier):
             ev.append([x, rng.choice(tags), np_seed(rng)])
     # integer-typed inputs: some observations / batches are made integral and handed over as Python ints / int64 arrays
     # (the all-ndarray run passes the same values as floats); the first input is integral more often
-    if k in ("x", "xx", "batch"):
+    if k in ("x", "xx", "batch") and name != "NNDVI":     # (NN-DVI needs >= k distinct rows: rounding could collapse a batch)
         for j, e in enumerate(ev):
             if rng.random() < (0.3 if j == 0 else 0.12):
                 if k == "batch":
